@@ -2,6 +2,7 @@ import Nsq.Model.Line
 import Nsq.Model.ToFile
 import Nsq.Model.Split
 import Nsq.Model.Relay
+import Nsq.Model.ToFileTrace
 /-! Driver for engine E8 (tools): one operation per input line, one canonical answer line out.
 
 `tf …`  nsq_to_file router model (stateful: conf / pre / events / tree)
@@ -45,7 +46,7 @@ structure D where
 def stateLine (d : D) : String × D :=
   let newFins := (d.st.finished.take (d.st.finished.length - d.nfin)).reverse
   let fins := " ".intercalate (newFins.map fun m => toString m.id)
-  (s!"st={statusName d.st.status} fin=[{fins}] pend={d.st.pending.length} files={filesLine d.st.fs false}",
+  (s!"st={statusName d.st.status} fin=[{fins}] files={filesLine d.st.fs false}",
    { d with nfin := d.st.finished.length })
 
 def noFault : Nat → Fault := fun _ => .ok
@@ -79,6 +80,7 @@ def tfStep (d : D) (ws : List String) : String × D :=
   | ["hup"] => stateLine { d with st := step d.cfg noFault d.st .hup false }
   | ["term"] => stateLine { d with st := step d.cfg noFault d.st .term false }
   | ["stopped"] => stateLine { d with st := step d.cfg noFault d.st .stopped false }
+  | ["termstop"] => stateLine { d with st := step d.cfg noFault (step d.cfg noFault d.st .term false) .stopped false }
   | ["tree"] => (s!"st={statusName d.st.status} tree={filesLine d.st.fs true}", d)
   | _ => ("bad-op", d)
 
@@ -89,6 +91,7 @@ def stepLine (d : E8.D) (line : String) : String × E8.D :=
   | "tf" :: ws => E8.tfStep d ws
   | "sp" :: ws => (Nsq.Model.Split.driverLine ws, d)
   | "rl" :: ws => (Nsq.Model.Relay.driverLine ws, d)
+  | "tr" :: ws => (Nsq.Model.ToFileTrace.driverLine ws, d)
   | _ => ("bad-op", d)
 
 partial def loop (h : IO.FS.Stream) (out : IO.FS.Stream) (d : E8.D) : IO Unit := do
